@@ -57,6 +57,10 @@ class Scheduler:
         self.status = SchedulerStatus.SLEEP
         self.ingest_observation = None
         self.provision_ingest = 0
+        # ingest machines promised during the current timestep that have not
+        # left the cluster's available pool yet (see check_ingest_capacity)
+        self._promised_ingest = 0
+        self._promised_time = None
         self.observation_queue = []
         self.schedule_status = ScheduleStatus.ONTIME
         self.events = []
@@ -169,13 +173,21 @@ class Scheduler:
 
         cluster_capacity = False
         pipeline_demand = pipelines[observation.name]['ingest_demand']
-        if self.cluster.check_ingest_capacity(pipeline_demand, max_ingest):
+        # Observations admitted earlier in this timestep are provisioned only
+        # after the instrument has yielded, so the cluster still counts their
+        # machines as available: ask for them on top of this demand.
+        if self._promised_time != self.env.now:
+            self._promised_time = self.env.now
+            self._promised_ingest = 0
+        if self.cluster.check_ingest_capacity(
+                pipeline_demand + self._promised_ingest, max_ingest):
             if self.provision_ingest + pipeline_demand <= max_ingest:
                 cluster_capacity = True
                 # Only an observation that is actually admitted holds ingest
                 # machines; allocate_ingest() gives them back when it ends.
                 if buffer_capacity:
                     self.provision_ingest += pipeline_demand
+                    self._promised_ingest += pipeline_demand
                 LOGGER.debug(
                     "Cluster is able to process ingest for observation %s",
                     observation.name)
